@@ -7,6 +7,7 @@ import (
 	"sort"
 	"strings"
 	"sync"
+	"sync/atomic"
 	"time"
 
 	predis "github.com/samaritan-proxy/samaritan/pb/config/protocol/redis"
@@ -380,6 +381,7 @@ func c14(r *ev.Run) {
 	}
 	c14RefreshStorm(r)
 	c14StrategyUpdate(r)
+	c14ReplicaMigration(r)
 	r.Require("gate_must_reject", 300)
 	r.Require("arrivals_judged", 300)
 	r.Require("arrivals_at_replicas", 20)
@@ -622,4 +624,113 @@ func c14StrategyUpdate(r *ev.Run) {
 	}
 	r.Require("strategy_updates_applied", 4)
 	r.Require("strategy_update_arrivals_judged", 1500)
+}
+
+// c14ReplicaMigration: replicas change masters while the masters keep their slots (replica migration, a new replica, a replica gone).
+// Once the proxy has fetched the new layout, a read may only arrive at the owning master or at one of ITS replicas.
+func c14ReplicaMigration(r *ev.Run) {
+	s, err := startSUT(r, false, 60000, 20)
+	if err != nil {
+		r.Internal("start sut: %v", err)
+		return
+	}
+	defer s.Close()
+	rnd := rand.New(rand.NewSource(r.Seed + 1414))
+	for _, strat := range []predis.ReadStrategy{predis.ReadStrategy_REPLICA, predis.ReadStrategy_BOTH} {
+		cl, err := fakecluster.New(2+rnd.Intn(2), 1)
+		if err != nil {
+			r.Internal("fakecluster: %v", err)
+			return
+		}
+		layout := randomLayout(rnd, cl)
+		cl.LogArgs = false
+		var mu sync.Mutex
+		armed := false
+		var fetches int64
+		cl.OnEvent = func(e *fakecluster.Event) {
+			if e.Cmd == "cluster" {
+				atomic.AddInt64(&fetches, 1)
+				return
+			}
+			if e.Cmd == "readonly" || e.Cmd == "asking" {
+				return
+			}
+			mu.Lock()
+			on := armed
+			mu.Unlock()
+			key, ok := fakecluster.KeyOf(e.Cmd, e.Args)
+			if !on || !ok {
+				return
+			}
+			owner := cl.Nodes[0].OwnerLocked(fakecluster.Slot(key))
+			recv := cl.Nodes[e.Node]
+			r.Count("replica_migration_arrivals_judged", 1)
+			if e.Replica {
+				r.Count("replica_migration_reads_at_replicas", 1)
+			}
+			if e.Replica && recv.Master() != owner {
+				r.Violation("C14:read-at-foreign-replica:after-replica-migration:"+e.Cmd, fmt.Sprintf("a read of slot %d (owner node %d) arrived at node %d, which now replicates node %d: the proxy kept the replica list it had before the replicas changed masters", fakecluster.Slot(key), owner.Idx, e.Node, recv.Master().Idx),
+					map[string]interface{}{"strategy": strat.String(), "arrived": argStrings(e.Args), "layout": layout})
+			}
+			if !e.Replica && recv != owner {
+				r.Violation("C14:read-misrouted:after-replica-migration:"+e.Cmd, "a command arrived at a master that does not own its slot", map[string]interface{}{"strategy": strat.String(), "arrived": argStrings(e.Args)})
+			}
+		}
+		svc, err := startRedisSvc(s, cl, cl.Addrs(), RedisOpts{ReadStrategy: strat})
+		if err != nil || !svc.WaitRouting(1, 10*time.Second) {
+			r.Internal("service did not start: %v", err)
+			cl.Close()
+			return
+		}
+		conn, err := svc.Dial()
+		if err != nil {
+			r.Internal("dial: %v", err)
+			cl.Close()
+			return
+		}
+		reads := func(n int) {
+			for i := 0; i < n; i++ {
+				conn.DoS(20*time.Second, "GET", fmt.Sprintf("rm.%d", rnd.Intn(4000)))
+			}
+		}
+		reads(200)
+		// rotate the replicas: the replica of master i now replicates master i+1
+		ms := cl.Masters()
+		cl.Lock()
+		var reps []*fakecluster.Node
+		for _, m := range ms {
+			reps = append(reps, cl.Replicas(m)...)
+		}
+		for i, rp := range reps {
+			cl.ReattachLocked(rp, ms[(i+1)%len(ms)])
+		}
+		cl.Unlock()
+		// the proxy learns it: a host event triggers a refresh; wait until a fetch issued after the change has been served
+		before := atomic.LoadInt64(&fetches)
+		s.HostOp("host_add", svc.Name, hostsOf(cl.Addrs()[:1]))
+		fetched := false
+		for i := 0; i < 300 && !fetched; i++ {
+			fetched = atomic.LoadInt64(&fetches) > before
+			time.Sleep(10 * time.Millisecond)
+		}
+		if !fetched {
+			r.Inconclusive("replica-migration:no-refresh-observed")
+		} else {
+			time.Sleep(100 * time.Millisecond) // the fetched layout is applied
+			mu.Lock()
+			armed = true
+			mu.Unlock()
+			reads(600)
+			mu.Lock()
+			armed = false
+			mu.Unlock()
+			r.Count("replica_migrations_judged", 1)
+		}
+		r.Case("replica-migration/" + strat.String())
+		conn.Close()
+		s.StopProc(svc.Name, 20*time.Second)
+		cl.Close()
+	}
+	r.Require("replica_migrations_judged", 2)
+	r.Require("replica_migration_reads_at_replicas", 100)
 }
